@@ -25,17 +25,91 @@ func init() {
 
 func c11tls(c *an.Ctx) {
 	exec := c.Fn("nsqd", "(*protocolV2).Exec")
-	enforce := c.Fn("nsqd", "enforceTLSPolicy")
 	upgrade := c.Fn("nsqd", "(*clientV2).UpgradeTLS")
 	identify := c.Fn("nsqd", "(*protocolV2).IDENTIFY")
-	if exec == nil || enforce == nil || upgrade == nil || identify == nil {
+	if exec == nil || upgrade == nil || identify == nil {
 		return
 	}
-	var succ []an.Edge
-	for _, ec := range an.CallsTo(exec, enforce) {
-		s, _ := an.ErrEdges(ec.Value())
-		succ = append(succ, s...)
+	tlsF := c.P.Field("nsqd", "clientV2", "TLS")
+	// "the policy is satisfied" is a fact: TLSRequired == TLSNotRequired, or the connection's TLS flag is 1
+	policyOK := func(cmps []an.Cmp) bool {
+		for _, cmp := range cmps {
+			if cmp.Op != token.EQL {
+				continue
+			}
+			if isOptsField(c, cmp.X, "nsqd", "TLSRequired") {
+				if k, isC := an.ConstInt(cmp.Y); isC && k == 0 {
+					return true
+				}
+			}
+			if atomicLoadOf(cmp.X, tlsF) {
+				if k, isC := an.ConstInt(cmp.Y); isC && k == 1 {
+					return true
+				}
+			}
+		}
+		return false
 	}
+	// a gate function (enforceTLSPolicy on the pinned tree): returns an error, mentions the policy, and every return that
+	// can be nil comes in on an edge where the policy is satisfied
+	isGate := func(g *ssa.Function) (gate bool, bad *ssa.Return) {
+		if g == nil || len(g.Blocks) == 0 || g.Signature.Results().Len() != 1 || !an.IsErrorType(g.Signature.Results().At(0).Type()) {
+			return false, nil
+		}
+		mentions := false
+		for _, b := range g.Blocks {
+			for _, s := range b.Succs {
+				if policyOK(an.CmpsOnEdge(an.Edge{From: b, To: s})) {
+					mentions = true
+				}
+			}
+		}
+		if !mentions {
+			return false, nil
+		}
+		for _, r := range an.Returns(g) {
+			if !isSuccessReturn(r) {
+				continue
+			}
+			good := true
+			b := r.Block()
+			if len(b.Preds) <= 1 {
+				good = policyOK(an.CmpsAt(b))
+			} else {
+				for _, p := range b.Preds {
+					if !policyOK(an.CmpsOnEdge(an.Edge{From: p, To: b})) && !policyOK(an.CmpsAt(p)) {
+						good = false
+					}
+				}
+			}
+			if !good {
+				return true, r
+			}
+		}
+		return true, nil
+	}
+	var succ []an.Edge
+	an.Instrs(exec, func(in ssa.Instruction) {
+		call, ok := in.(*ssa.Call)
+		if !ok {
+			return
+		}
+		g := an.StaticCallee(call)
+		if g == nil || g.Pkg != exec.Pkg {
+			return
+		}
+		gate, bad := isGate(g)
+		if !gate {
+			return
+		}
+		if bad != nil {
+			c.Bad(g, "policy passes only without requirement or over TLS", bad.Pos(), g.Name()+" can return nil although TLS is required and the connection is not upgraded", nil)
+			return
+		}
+		c.OK(g, "policy passes only without requirement or over TLS", g.Pos(), "")
+		s, _ := an.ErrEdges(call)
+		succ = append(succ, s...)
+	})
 	for _, cmd := range nsqdCommands {
 		h := c.P.Func("nsqd", "(*protocolV2)."+cmd)
 		if h == nil {
@@ -47,51 +121,17 @@ func c11tls(c *an.Ctx) {
 				continue
 			}
 			q := &an.PathQ{Fn: exec, StartEntry: true, Sink: func(in ssa.Instruction, _ *an.PathState) bool { return in == hc.(ssa.Instruction) },
-				CutEdge: func(e an.Edge, _ *an.PathState) bool { return an.EdgeIn(e, succ) }}
+				CutEdge: func(e an.Edge, st *an.PathState) bool {
+					// through the success edge of a gate function, or an edge of Exec itself on which the policy is satisfied
+					return an.EdgeIn(e, succ) || policyOK(st.CmpsOnEdge(e))
+				}}
 			w, f := q.Find()
-			if f || len(succ) == 0 {
-				c.Bad(exec, cmd+" behind the TLS gate", hc.Pos(), cmd+" can be dispatched without enforceTLSPolicy having succeeded: with --tls-required a plaintext client executes it", w)
+			if f {
+				c.Bad(exec, cmd+" behind the TLS gate", hc.Pos(), cmd+" can be dispatched although TLS is required and the connection was not upgraded (no path-cutting test of TLSRequired / client.TLS before it): with --tls-required a plaintext client executes it", w)
 			} else {
 				c.OK(exec, cmd+" behind the TLS gate", hc.Pos(), "")
 			}
 		}
-	}
-	// enforceTLSPolicy: every nil return comes in on an edge where TLSRequired == NotRequired or client.TLS == 1
-	tlsF := c.P.Field("nsqd", "clientV2", "TLS")
-	for _, r := range an.Returns(enforce) {
-		if !isSuccessReturn(r) {
-			continue
-		}
-		okEdge := func(cmps []an.Cmp) bool {
-			for _, cmp := range cmps {
-				if cmp.Op != token.EQL {
-					continue
-				}
-				if isOptsField(c, cmp.X, "nsqd", "TLSRequired") {
-					if k, isC := an.ConstInt(cmp.Y); isC && k == 0 {
-						return true
-					}
-				}
-				if atomicLoadOf(cmp.X, tlsF) {
-					if k, isC := an.ConstInt(cmp.Y); isC && k == 1 {
-						return true
-					}
-				}
-			}
-			return false
-		}
-		good := true
-		b := r.Block()
-		if len(b.Preds) <= 1 {
-			good = okEdge(an.CmpsAt(b))
-		} else {
-			for _, p := range b.Preds {
-				if !okEdge(an.CmpsOnEdge(an.Edge{From: p, To: b})) {
-					good = false
-				}
-			}
-		}
-		c.Check(good, enforce, "policy passes only without requirement or over TLS", r.Pos(), "", "enforceTLSPolicy can return nil although TLS is required and the connection is not upgraded")
 	}
 	// the TLS flag: only UpgradeTLS stores 1, after Handshake success
 	for _, fn := range c.P.PkgFuncs("nsqd") {
